@@ -35,61 +35,111 @@ def pp_it(e):
 
 
 def update_plan_rules(run, F, E):
+    """the scan / fire / consume discipline of updatePlan, keyed on *types and resolved callees* (the plan iterator is the local of
+    the plan's iterator type, the deferred mask the local bit array, a firing is a call of changeTo/changeWith, ...), never on the
+    names of locals or on the loop's spelling"""
+    SUCC = ('core', 'planData', 'tasksSuccesses')
     for fn in F.find('FullControlT', 'updatePlan'):
         c = cfgmod.cfg_of(fn)
         label = 'payload' if not (fn.cls or '').rstrip('> ').endswith('void') else 'void'
-        lps = [h for h in c.events(('loophead',))]
-        ok_loop = len(lps) == 1
-        fires = c.events(('call',), lambda n: n.e.get('m') in ('changeTo', 'changeWith'))
-        removes = c.events(('call',), lambda n: n.e.get('m') == 'remove')
-        gets = [b for b in c.events(('branch',)) if b.e is not None and 'tasksSuccesses.get(' in ir.pp(b.e)]
+        decls = c.events(('decl',))
+        iters = [n for n in decls if (n.e.get('ty') or '').endswith('::Iterator') and 'PlanT<' in (n.e.get('ty') or '')]
+        masks = [n for n in decls if (n.e.get('ty') or '').startswith('ffsm2::detail::BitArrayT<') and not n.e.get('ref')]
         conds = {}
+        conds['one plan iterator and one deferred mask'] = len(iters) == 1 and len(masks) == 1
+        if not conds['one plan iterator and one deferred mask']:
+            run.ob('C08.b', 'FullControlT<%s>::updatePlan scan/fire/consume discipline [%s]' % (label, F.label()), False, where=fn.pat,
+                   detail={'plan iterators': len(iters), 'local bit arrays': len(masks)}, key='updatePlan (%s) breaks the scan/fire/consume discipline' % label)
+            continue
+        it_id, mask_id = iters[0].e['id'], masks[0].e['id']
+
+        def on_iter(e):
+            """expression mentions the iterator"""
+            return ir.is_expr(e) and any(x['k'] == 'var' and x.get('id') == it_id for x in ir.walk(e))
+
+        def task_origin(e):
+            """the origin field of the task the iterator points at"""
+            return ir.is_expr(e) and on_iter(e) and any(x['k'] == 'mem' and x.get('f') == 'origin' for x in ir.walk(e))
+
+        def is_var(e, vid):
+            x = ir.strip(e) if ir.is_expr(e) else None
+            return x is not None and x['k'] == 'var' and x.get('id') == vid
+
+        def on_path(e, path):
+            return ir.is_expr(e) and E.lv(e, fn) == {path}
+
+        def call_m(n):
+            g = F.fn(n.e['fn']) if n.e.get('fn') is not None else None
+            return (g.tkey.split('::')[-1], g.m) if g is not None else (None, n.e.get('m'))
+
+        lps = c.events(('loophead',))
+        ok_loop = len(lps) == 1
         conds['one scan loop'] = ok_loop
+        fires = c.events(('call',), lambda n: call_m(n) in (('FullControlBaseT', 'changeTo'), ('FullControlT', 'changeWith')))
+        removes = c.events(('call',), lambda n: n.e.get('m') == 'remove' and is_var(n.e.get('obj'), it_id))
+        gets = [b for b in c.events(('branch',)) if b.e is not None and
+                any(x['k'] == 'call' and x.get('m') == 'get' and on_path(x.get('obj'), SUCC) and x.get('args') and task_origin(x['args'][0]) for x in ir.walk(b.e))]
         if ok_loop:
             lp_stmt = lps[0].e
+            # the scan continues only while the iterator is valid and the origin of its task is active: both are conjuncts of the loop
+            # condition (for / while)
             cj = loops.conjuncts(lp_stmt.get('c')) if lp_stmt.get('c') is not None else []
-            txt = [ir.pp(x) for x in cj]
-            conds['scan continues only while the iterator is valid and its origin is active'] = \
-                len(cj) == 2 and any('operator bool' in t and 'it' in t for t in txt) and any(t.startswith('isActive(') and 'origin' in t and 'it' in t for t in txt)
-            init = lp_stmt.get('init')
-            iv = init['vars'][0] if init and init.get('vars') else None
-            conds['scan starts at begin() of the plan'] = iv is not None and 'begin()' in ir.pp(ir.strip(iv.get('init')))
-            inc = lp_stmt.get('inc')
-            conds['advances with ++it'] = inc is not None and ir.strip(inc).get('k') == 'call' and ir.strip(inc).get('op') == '++'
+            valid = [x for x in cj if any(y['k'] == 'call' and y.get('m') == 'operator bool' and is_var(y.get('obj'), it_id) for y in ir.walk(x))]
+            active = [x for x in cj if any(y['k'] == 'call' and y.get('m') == 'isActive' and y.get('args') and task_origin(y['args'][0]) for y in ir.walk(x))
+                      and not (ir.strip(x)['k'] == 'un' and ir.strip(x)['op'] == '!')]
+            conds['scan continues only while the iterator is valid and its origin is active'] = len(cj) == 2 and len(valid) == 1 and len(active) == 1
+            init = ir.strip(iters[0].e.get('init')) if ir.is_expr(iters[0].e.get('init')) else None
+            conds['scan starts at begin() of the plan'] = init is not None and any(
+                x['k'] == 'call' and x.get('m') == 'begin' and 'PlanT<' in (x.get('cls') or '') for x in ir.walk(init)) and c.dominates(iters[0], lps[0]) \
+                and not c.in_loop(iters[0])
+            # exactly one ++it on every path that iterates again, none of them under the success test
+            incs = c.events(('call',), lambda n: n.e.get('m') == 'operator++' and is_var(n.e.get('obj'), it_id))
+            def is_inc(x):
+                return x['k'] == 'call' and x.get('m') == 'operator++' and is_var(x.get('obj'), it_id)
+            per_iter = loops.events_per_iteration(lp_stmt, is_inc)
+            conds['advances with exactly one ++it per iteration'] = per_iter == {1} and len(incs) == 1
             conds['no continue/break in the scan'] = not loops.has_jump(loops.classify(lp_stmt))
-        conds['one success test per iteration on the same iterator'] = len(gets) == 1 and 'it' in ir.pp(gets[0].e) and 'origin' in ir.pp(gets[0].e)
+        conds['one success test per iteration on the same iterator'] = len(gets) == 1 and (not ok_loop or c.in_loop(gets[0]))
         if len(gets) == 1:
-            t_edge = [s for s, lab in gets[0].succ if lab == 'T'][0]
+            # the edge on which the success bit is set, whatever the polarity the test is written in
+            dec = [d for d in ir.find_decisions(c, lambda t: ir.strip(t)['k'] == 'call' and ir.strip(t).get('m') == 'get') if d[0] is gets[0]]
+            t_edge = dec[0][1] if dec else [s for s, lab in gets[0].succ if lab == 'T'][0]
             conds['firing only under the success test'] = bool(fires) and all(c.dominates(t_edge, f) for f in fires)
-            conds['the fired task is removed after firing, in the same branch'] = len(removes) == 1 and all(c.dominates(f, removes[0]) or True for f in fires) \
+            conds['the fired task is removed after firing, in the same branch'] = len(removes) == 1 \
                 and c.dominates(t_edge, removes[0]) and all(not c.dominates(removes[0], f) for f in fires)
-            origin = c.events(('decl',), lambda n: '::Origin' in (n.e.get('cls') or ''))
+            origin = c.events(('decl',), lambda n: (n.e.get('cls') or '').endswith('::Origin'))
             okor = len(origin) == 1 and all(c.dominates(origin[0], f) for f in fires)
             if okor:
                 a = ir.strip(origin[0].e['init']).get('args', [])
-                okor = len(a) == 2 and 'origin' in ir.pp(ir.strip(a[1])) and 'it' in ir.pp(ir.strip(a[1]))
+                okor = len(a) == 2 and task_origin(a[1])
             conds['the request is made with the task origin as the caller (scoped origin it->origin)'] = okor
-            consume = c.events(('call',), lambda n: n.e.get('m') == 'clear' and len(n.e.get('args', [])) == 1 and
-                               pp_it(n.e['obj']) in ('_core.planData.tasksSuccesses', 'successesToClear') if ir.is_expr(n.e.get('obj')) else False)
-            cyc = [b for b in c.events(('branch',)) if b.e is not None and 'cyclic' in ir.pp(b.e)]
+            # the fired destination / payload come from the same task
+            okd = all(f.e.get('args') and on_iter(f.e['args'][0]) and any(x['k'] == 'mem' and x.get('f') == 'destination' for x in ir.walk(f.e['args'][0])) for f in fires)
+            conds['the destination requested is the task\'s destination'] = okd
+
+            def is_consume(n):
+                if n.e.get('m') != 'clear' or len(n.e.get('args', [])) != 1 or not ir.is_expr(n.e.get('obj')):
+                    return False
+                return on_path(n.e['obj'], SUCC) or is_var(n.e['obj'], mask_id)
+            consume = c.events(('call',), is_consume)
+            cyc = ir.find_decisions(c, lambda t: ir.strip(t)['k'] == 'call' and ir.strip(t).get('m') == 'cyclic' and on_iter(t))
             okc = len(consume) == 2 and len(cyc) == 1
             if okc:
-                te = [s for s, lab in cyc[0].succ if lab == 'T'][0]
-                fe = [s for s, lab in cyc[0].succ if lab == 'F'][0]
+                _, te, fe = cyc[0]
                 on_t = [n for n in consume if c.dominates(te, n)]
                 on_f = [n for n in consume if c.dominates(fe, n)]
-                okc = len(on_t) == 1 and len(on_f) == 1 and pp_it(on_t[0].e['obj']).endswith('tasksSuccesses') and pp_it(on_f[0].e['obj']) == 'successesToClear' \
-                    and c.dominates(t_edge, cyc[0])
-                okc = okc and all('origin' in pp_it(n.e['args'][0]) and 'it' in pp_it(n.e['args'][0]) for n in consume)
+                okc = len(on_t) == 1 and len(on_f) == 1 and on_path(on_t[0].e['obj'], SUCC) and is_var(on_f[0].e['obj'], mask_id) \
+                    and c.dominates(t_edge, cyc[0][0])
+                okc = okc and all(task_origin(n.e['args'][0]) for n in consume)
             conds['each firing iteration consumes the success report exactly once (cyclic: now, otherwise after the scan)'] = okc
         ands = c.events(('call',), lambda n: n.e.get('op') == '&=' or n.e.get('m') == 'operator&=')
         okand = len(ands) == 1 and ok_loop and not c.in_loop(ands[0])
         if okand:
-            okand = pp_it(ands[0].e['obj']).endswith('tasksSuccesses') and pp_it(ands[0].e['args'][0]) == 'successesToClear'
+            okand = on_path(ands[0].e['obj'], SUCC) and is_var(ands[0].e['args'][0], mask_id)
             # follows the loop: the loop head dominates it and it is outside the loop
             okand = okand and c.dominates(lps[0], ands[0])
-        conds['deferred consumption is applied after the scan (tasksSuccesses &= successesToClear)'] = okand
-        sets = c.events(('call',), lambda n: n.e.get('m') == 'set' and not n.e.get('args') and ir.is_expr(n.e.get('obj')) and pp_it(n.e['obj']) == 'successesToClear')
+        conds['deferred consumption is applied after the scan (tasksSuccesses &= mask)'] = okand
+        sets = c.events(('call',), lambda n: n.e.get('m') == 'set' and not n.e.get('args') and is_var(n.e.get('obj'), mask_id))
         conds['the deferred mask starts from all-ones before the scan'] = len(sets) == 1 and ok_loop and c.dominates(sets[0], lps[0])
         bad = [k for k, v in conds.items() if not v]
         run.ob('C08.b', 'FullControlT<%s>::updatePlan scan/fire/consume discipline (%d conditions) [%s]' % (label, len(conds), F.label()), not bad,
@@ -199,23 +249,34 @@ def exit_clears(run, F, E):
 
 
 def sibling_rule(run, F, E):
+    """the two specialisations perform the same sequence of library calls (resolved callees in dominance order, with their control
+    dependences), apart from how the payload is handed on -- compared on the call structure, not on the text of the bodies, so that a
+    named temporary or a renamed local on one side is no disagreement"""
     by = {}
+    IGNORE = {'operator->', 'operator*', 'payload', 'operator bool'}
     for fn in F.find('FullControlT', 'updatePlan'):
         void = (fn.cls or '').rstrip('> ').endswith('void')
-
-        def erase(s):
-            return False
-        txt = ir.pp_stmt(fn.body)
-        if not void:
-            # replace `if (payload...) changeWith(...) else changeTo(...)` by the else branch
-            txt = re.sub(r'if \(const int \*const payload = [^\n]*\n\s*changeWith\([^\n]*\n\s*else\n(\s*)changeTo', r'\1changeTo', txt)
-            txt = re.sub(r'if \([^\n]*payload\(\)[^\n]*\)\n\s*changeWith\([^\n]*\n\s*else\n', '', txt)
-        txt = re.sub(r'\s+', ' ', txt)
-        by.setdefault(void, set()).add(txt)
+        c = cfgmod.cfg_of(fn)
+        evs, _, _ = anchors.ordered_events(c, lambda n: n.kind == 'call')
+        seq = []
+        for n in evs:
+            g = F.fn(n.e['fn']) if n.e.get('fn') is not None else None
+            name = (g.tkey.split('::')[-1] + '::' + g.m) if g is not None else str(n.e.get('m'))
+            m = name.split('::')[-1]
+            if m in IGNORE:
+                continue
+            if m in ('changeWith', 'changeTo'):
+                name = 'fire'
+            deps = len([b_ for b_ in c.control_deps_closure(n) if not (b_.e is not None and 'payload' in ir.pp(b_.e))])
+            item = (name, bool(c.in_loop(n)), deps)
+            if name == 'fire' and seq and seq[-1] == item:
+                continue      # changeWith / changeTo on the two arms of the payload test: one firing
+            seq.append(item)
+        by.setdefault(void, set()).add(tuple(seq))
     if True in by and False in by:
         ok = by[True] == by[False]
         run.ob('C08.f', 'payload and void specialisations of updatePlan agree after erasing the payload branch', ok,
-               detail=None if ok else {'void': sorted(by[True])[0][:500], 'payload': sorted(by[False])[0][:500]},
+               detail=None if ok else {'void': [x[0] for x in sorted(by[True])[0]], 'payload': [x[0] for x in sorted(by[False])[0]]},
                key='the two updatePlan specialisations disagree')
 
 
